@@ -36,6 +36,11 @@ def gen(rng, count, tier):
             if rng.random() < 0.15:
                 call['func'] = 'task_big'
             calls.append(call)
+            if keep and ls is not None and rng.random() < 0.4:
+                # apply tasks served by the kept-alive workers: they keep the lifespan of the last map call
+                nb = rng.choice([12, 25, 40])
+                calls.append({'kind': 'apply_batch', 'jobs': [{'id': i, 'args': [1000 * (j + 1) + 500 + i], 'cbs': [False, False]} for i in range(nb)],
+                              'get_timeout': 30, 'no_join': True, 'after_lifespan': ls})
         sc = {'id': f'l{k}', 'pool': pool, 'calls': calls, 'budget': 60}
         if rng.random() < 0.3:
             # widen the window between the death watch's reads
@@ -61,6 +66,27 @@ def oracle(rec):
         a = e['args']
         if isinstance(a, list) and a[0] == 'tuple' and a[1] and isinstance(a[1][0], int):
             per_inst[(e['inst'], a[1][0] // 1000)] += 1
+    # apply batches between the map calls: every instance still retires after the lifespan of the last map call
+    prev_cmax = 1
+    for i, call in enumerate(rec['scenario']['calls']):
+        if call.get('kind') != 'apply_batch':
+            continue
+        out = res['calls'][i]
+        if out.get('outcome') != 'ok' or any(v[0] != 'ok' for v in out.get('value', [])):
+            return f"apply batch after a map with lifespan {call['after_lifespan']} failed: {str(out.get('value') or out.get('exc'))[:160]}", checked
+        L = call['after_lifespan']
+        lo = call['jobs'][0]['args'][0]
+        cnt_inst = collections.Counter()
+        for e in S.task_events(rec):
+            a = e['args']
+            if isinstance(a, list) and a[0] == 'tuple' and a[1] and isinstance(a[1][0], int) and lo <= a[1][0] < lo + 500:
+                cnt_inst[e['inst']] += 1
+        allmax = max([max(v) for v in jobs if v] or [1])
+        for inst, cnt in cnt_inst.items():
+            checked += 1
+            if cnt > L + allmax - 1:
+                return (f"apply tasks on kept-alive workers started under worker_lifespan={L}: instance {inst} executed {cnt} of them "
+                        f"(> {L + allmax - 1}): its replacement lost the lifespan"), checked
     for idx, (i, call) in enumerate(map_calls):
         out = res['calls'][i]
         if out.get('outcome') != 'ok':
